@@ -3,6 +3,8 @@ import DirectVerif.Model.MaskBudget
 import DirectVerif.Model.C07Magic
 import DirectVerif.Model.C07Bisect
 import DirectVerif.Model.C07Random
+import DirectVerif.Model.C07Ties
+import DirectVerif.Model.C07Circus
 /-!
 # Driver C07 — the budget model executed on recorded draws
 
@@ -13,6 +15,11 @@ import DirectVerif.Model.C07Random
   `gauss1d N L Rn Rd | candidates`        candidate columns of the libc stream           → `ok k returned count | bits`
   `gauss2d nrow ncol Rn Rd | acs bits | x₀ y₀ x₁ y₁ …`                                  → `ok k returned count`
   `gchoose N uniform choice | accs (n d)* | cfs (n d)*`  the pair used, #ACS, request  → `ok choice L k` / `err NotImplementedError`
+  `equit N L Rn Rd off extra | ups`     the equispaced frame at exact ties: indices of the ties the code rounded up and
+                         whether the grid got one more point (read off the real mask)  → `ok count bound #ties | grid points outside the ACS`
+  `circusm rows cols Rn Rd L Mreal`   CIRCUS: adjusted acceleration for a centre region of L cells (L = 0: none) and the number of
+                         picks per nested square; `Mreal` is the value the real (binary64) code computed
+                         → `ok admissible nsq` (admissible = exact floor, or one less at an exact whole quotient)
   `choose uniform choice | accs (n d)* | L per pair`  the pair a call of any generator uses → `ok choice Rn Rd L` / `err NotImplementedError`
   `magic N lRaw Rn Rd | offsets`          one offset per frame                          → `ok L adj | count formula … | bits of frame 0 | …`
                          / `err ValueError` when the ACS block uses up the budget
@@ -78,6 +85,19 @@ def step (op : String) (gs : List (List Int)) : String :=
     | .ok (c, r) =>
       let L := numLowFreqs N c
       okG [[choice, L, gaussianRequest ((N : Rat) / r) L]]
+  | "equit", [[N, L, Rn, Rd, off, extra], ups] =>
+    match equiReject N L (q Rn Rd) with
+    | some e => "err " ++ e
+    | none =>
+      let a := adjAccel N (q Rn Rd) L
+      okG [[equiCountT N L a off ups extra.toNat, offsetBound a, (tieIndices N a off).length],
+           (equiPositionsT N a off ups extra.toNat).filter fun p => !inAcs N L p]
+  | "circusm", [[rows, cols, Rn, Rd, L, mReal]] =>
+    let P : Rat := ((rows * cols : Int) : Rat)
+    let a : Rat := if L = 0 then q Rn Rd else adjAccel P (q Rn Rd) L
+    let maxd : Int := max rows cols - (max rows cols) % 2
+    let mind : Int := min rows cols - (min rows cols) % 2
+    okG [[b2i (circusMAdmissible P a maxd mind mReal), maxd / 2]]
   | "choose", [[uniform, choice], accs, ls] =>
     let toQ := fun (l : List Int) => (pairs l).map fun (n, d) => q n d
     match choosePair (uniform != 0) (toQ accs) ls choice.toNat with
